@@ -351,10 +351,16 @@ func (m *Msg) String() string { return m.StringL(nil) }
 // StringL renders the message with UP SEIDs replaced by logical labels and usage reports sorted
 // (their order inside one message follows Go map iteration in the implementation).
 func (m *Msg) StringL(lab func(uint64) string) string {
+	normalise := lab != nil
 	if lab == nil {
 		lab = func(x uint64) string { return fmt.Sprintf("%#x", x) }
 	}
 	s := fmt.Sprintf("type=%d seq=%d", m.Type, m.Seq)
+	if normalise && m.Type == MReportReq {
+		// the order in which one tick's reports are forwarded follows Go map iteration: the wire sequence
+		// numbers of UPF-initiated requests are not part of a normalised observation
+		s = fmt.Sprintf("type=%d seq=*", m.Type)
+	}
 	if m.HasSEID {
 		s += fmt.Sprintf(" seid=%#x", m.SEID)
 	}
